@@ -172,7 +172,7 @@ pub struct RelExp {
 pub enum ItemExp { Entry(Vec<RelExp>), Substvar(String) }
 
 // (two names that differ where '+' and '-' sort differently under byte order and under "split at dashes" orders)
-const NAMES: &[&str] = &["libfoo2.0-dev", "a", "g++", "x~y", "python3-dulwich", "c-ares", "zlib1g", "c+tools", "a-b", "a1", "lib9", "lib10"];   // (lib10 < lib9 in byte order)
+const NAMES: &[&str] = &["libfoo2.0-dev", "a", "g++", "x~y", "python3-dulwich", "c-ares", "zlib1g", "c+tools", "a-b", "a1", "lib9", "lib10", "0ad", "7zip"];   // (digit-leading names)   // (lib10 < lib9 in byte order)
 const AQS: &[&str] = &["any", "native", "amd64"];
 /// two version chains in increasing Debian order (Policy 5.6.12)
 // (ranks 0..5 are the ordered chains of C12; the entries after them - hyphens inside the upstream part - are used by the generated fields only)
